@@ -11,6 +11,13 @@ HERE = Path(__file__).resolve().parent.parent
 BASELINE = "cd /repo && /venv/bin/python -m pytest -ra -q -p no:cacheprovider --timeout=900 --continue-on-collection-errors"
 
 CHECKS = {
+    "C03": dict(
+        technique="static analysis: post-dominance of the Hermitian symmetrisation in the clang AST of the D(q) producers (statement-list position relative to the OpenMP/serial twin and the single return), algebra of make_Hermitian's loop body by source-to-sympy translation, loop-bound extraction, open-term rules for the Python reference and the masses setter",
+        level="other",
+        text="Decides only the Hermiticity and mass-propagation clauses: because the property quantifies over arbitrary force constants, 'every producer path ends in (M + M^H)/2' is a necessary condition visible in code shape, and make_Hermitian's body is shown algebraically to compute a'=(a+conj b)/2, b'=conj a' over all pairs j>=i. D(-q)=conj D(q), G-periodicity, point-group invariance, the acoustic sum rule and the s/t scaling are statements about values and are not decided.",
+        note="Trusted: clang-14 JSON AST, sympy. The dipole-dipole term added after the symmetrisation on the Gonze-Lee path is Hermitian analytically, not by a code step; not judged.",
+        ref="DESIGN.md §3 C03",
+    ),
     "C04": dict(
         technique="static analysis on Python ast: index-variance (frame) typing of the lattice linear algebra — every axis is Cartesian, a lattice basis index or a lattice component index; .T swaps, inv swaps and flips, a contraction needs the same lattice with opposite variance — seeded from the repository's own conventions (x.cell, x.scaled_positions, supercell and primitive matrices); plus rejection-path rules",
         level="other",
@@ -38,6 +45,13 @@ CHECKS = {
         text="Decides: C==Python for every closed form and for the (i,ci) dispatch and omega case split; sum_c I=1, sum_c J=1 (additivity of projected DOS), dn/dw=g, continuity and full normalisation of n; geometric validity of the 4x24 literal tetrahedra; correctness of sort_omegas on all strict orderings; unit integral of both smearing kernels; that every DOS path weights by multiplicity and divides by the grid size once. Does not decide non-negativity / [0,1] bounds (inequalities) or the run-time generated Python table.",
         note="Trusted: clang-14 JSON AST (parsed with -DTHM_EPSILON=1e-10 as CMake does), CPython ast, sympy cancel/diff/integrate as normaliser, engine/symalg.py translators. Generic branch of _f (distinct vertex frequencies).",
         ref="DESIGN.md §3 C11",
+    ),
+    "C12": dict(
+        technique="static analysis: source-to-sympy derivative identity for the chain-rule coefficient, open-term comparison of the finite-difference and Grueneisen formulas with the documented ones, whole-class attribute resolution for objects constructed from repository classes",
+        level="other",
+        text="Decides the coefficient clauses: the factor applied to <e|dD|e> is d(factor sqrt l)/dl, the numerical derivative is the symmetric difference over 2|dq|, gamma = -<e|dD|e>/(dV/V)/(2 l) with dD = D(V+) - D(V-) and the strain from the three supplied cells; and that every documented access path (attribute/method on a locally constructed repository object) exists. Does not decide that dD equals the derivative of D (loop nests), degeneracy handling or mesh agreement.",
+        note="Trusted: CPython ast, sympy. Two known findings: phonopy-gruneisen calls two methods PhonopyGruneisen no longer has.",
+        ref="DESIGN.md §3 C12",
     ),
     "C13": dict(
         technique="static analysis over the clang-14 JSON AST of c/*.c and the nanobind glue plus Python ast: cross-language ABI table (dtype/contiguity/arity by backward def-use with call context), swapped-argument detector, OpenMP data-sharing and mixed-radix subscript-injectivity analysis with callee write summaries, preprocessor-block and serial/parallel twin comparison, symbolic bounds of every write against malloc sizes / fixed extents / Python allocation shapes, constant and sibling-kernel agreement",
@@ -80,6 +94,13 @@ CHECKS = {
         text="Decides, exhaustively over all ~107 options and ~111 tags, the clause 'a setting has the same effect as tag or as option' as far as it is a property of the tables: every option reaches a handler, every parameter reaches an existing setter, every settings read in the scripts exists, the encoding stored for a key is the one its handler parses (including the polarity of negative flags), and numeric options are forwarded under 'is not None' so that 0 means 0 on both routes. Does not decide that output files equal library results.",
         note="Trusted: CPython ast. Options handled directly by the scripts and namespace-only probes are frozen lists with one reason each. Documentation tags are reported as notes only.",
         ref="DESIGN.md §3 C18",
+    ),
+    "C19": dict(
+        technique="static analysis: source-to-sympy translation of the displacement prefactors with symbolic unit constants (identity with hbar/(2 m w)(1+2n) and k_B T/(m w^2)), equality of the Bose-Einstein expressions across modules, structural rules for the sqrt(2) / real-imaginary bookkeeping of conjugate q-point pairs",
+        level="other",
+        text="Decides the prefactor and distribution clauses for all temperatures/frequencies at once: both modules' mean-square amplitude per mode is algebraically the harmonic canonical one (quantum and classical), the two Bose-Einstein factors are the same function, q = -q+G points carry no sqrt(2) and conjugate pairs do with Re - Im, and the partition is computed once. Does not decide covariance equality of the sampler, positive semi-definiteness or the CIF transform.",
+        note="Trusted: CPython ast, sympy, units.py constants as symbols. One known finding: populations are switched off for T <= 1 K in ThermalMotion.",
+        ref="DESIGN.md §3 C19",
     ),
     "C20": dict(
         technique="static analysis: source-to-sympy translation of the three equations of state and symbolic differentiation (12 defining-meaning obligations); open-term normal-form comparison of the QHA finite-difference, unit and PV formulas with the documented ones; dispatch/unpack-order table rules",
